@@ -1,4 +1,5 @@
 from rtamt.semantics.stl.dense_time.online.variable_operation import VariableOperation
+from rtamt.semantics.stl.dense_time.online.constant_operation import ConstantOperation
 from rtamt.syntax.ast.visitor.stl.ast_visitor import StlAstVisitor
 
 from rtamt.semantics.arithmetic.dense_time.online.addition_operation import AdditionOperation
@@ -39,6 +40,9 @@ class StlDenseTimeOnlineAstVisitor(StlAstVisitor):
     def visitVariable(self, node, *args, **kwargs):
         self.visitChildren(node, *args, **kwargs)
         self.online_operator_dict[node.name] = VariableOperation()
+
+    def visitConstant(self, node, *args, **kwargs):
+        self.online_operator_dict[node.name] = ConstantOperation(node.val)
 
     def visitPredicate(self, node, *args, **kwargs):
         self.visitChildren(node, *args, **kwargs)
